@@ -88,6 +88,30 @@ func dumpLoadLeaf(x *drv.World, sc *engine.Scenario, cfg drv.Config, hist []mode
 			if e != srcSeq[k] {
 				return viol("serial", step, "creation %d after loading into a %s returned %v, source returned %v", k, what, e, srcSeq[k])
 			}
+			// liveness bookkeeping must be exact after every single step (recycled ids first, new ids later)
+			if !w.Alive(e) {
+				return viol("serial", step, "entity %v just created in the loaded world (%s) is not alive", e, what)
+			}
+			for i := x.M.EpochLo; i < len(x.M.Ents) && i < len(x.H); i++ {
+				if got := w.Alive(x.H[i]); got != x.M.Ents[i].Alive {
+					return viol("serial", step, "after %d creations in the loaded world (%s): Alive(%v)=%v, source says %v", k+1, what, x.H[i], got, x.M.Ents[i].Alive)
+				}
+			}
+			if k == 0 && avail > 0 {
+				// remove and re-create while only recycled ids are in play
+				w.RemoveEntity(e)
+				if w.Alive(e) {
+					return viol("serial", step, "loaded world (%s): entity %v still alive after removal", what, e)
+				}
+				e2 := w.NewEntity()
+				if e2.ID() != e.ID() || e2.Gen() == e.Gen() || !w.Alive(e2) || w.Alive(e) {
+					return viol("serial", step, "loaded world (%s): re-creation after removal of %v returned %v (alive=%v)", what, e, e2, w.Alive(e2))
+				}
+				w.RemoveEntity(e2)
+				e3 := w.NewEntity()
+				_ = e3
+				created[len(created)-1] = e3
+			}
 		}
 		// the loaded world stays usable: remove/recreate and compare liveness bookkeeping
 		for _, e := range created {
